@@ -273,7 +273,8 @@ func (f *FibStrategyTree) UnSetStrategyEnc(name enc.Name) {
 	f.fibStrategyRWMutex.Lock()
 	defer f.fibStrategyRWMutex.Unlock()
 	entry := f.root.findExactMatchEntryEnc(name)
-	if entry != nil {
+	// The root strategy can be replaced but never unset
+	if entry != nil && entry != f.root {
 		entry.strategy = nil
 		entry.pruneIfEmpty()
 	}
